@@ -160,6 +160,9 @@ func init() {
 		case "wr":
 			st := side(a[2])
 			p := unhx(a[3])
+			// the caller's slice has exactly the capacity of its length (for 128, 256, 4096, ... that is
+			// one of the byte pool's size classes: a slice the library must not hand to the pool)
+			p = append(make([]byte, 0, len(p)), p...)
 			orig := append([]byte(nil), p...)
 			rand.Seed(5)
 			var out []byte
@@ -234,6 +237,8 @@ func init() {
 			} else if a[1] == "buffered" || a[1] == "wm" || a[1] == "wt" || a[1] == "big" {
 				carried = hx(payloadsOf(out, st))
 			}
+			// other users of the pools run before the caller looks at its slice again
+			scribble()
 			return fmt.Sprintf("intact=%d carried=%s", b2i(bytes.Equal(orig, p)), carried)
 		}
 		return "BADOP"
@@ -323,7 +328,7 @@ func genC17(tier string, r *rng) {
 			run(fmt.Sprintf("ali rm %s %s %s", sd, hx(frag), hx(ch)))
 		}
 		for _, kind := range []string{"wm", "wt", "big", "buffered", "cwr", "mf", "mfw", "umf", "umf0", "umfu", "mfw0"} {
-			for _, n := range []int{0, 1, 7, 8, 9, 31, 100, 127, 128, 1000, 5000} {
+			for _, n := range []int{0, 1, 7, 8, 9, 31, 100, 127, 128, 256, 1000, 1024, 4096, 5000} {
 				run(fmt.Sprintf("ali wr %s %s %s", kind, sd, hx(r.bytes(n))))
 			}
 		}
